@@ -441,6 +441,27 @@ func isSyncType(t types.Type) bool {
 	}
 }
 
+// syncMethodUse: the access chain rooted at id is the receiver of a method declared in sync, sync/atomic or the shim
+// packages (possibly promoted from an embedded field).  That is a synchronisation operation, modelled by the shim as a
+// scheduling point with happens-before edges - not a data access to the variable that embeds the object.
+func (p *pkgCtx) syncMethodUse(id *ast.Ident) bool {
+	top := p.chainTop(id)
+	sel, ok := p.parent[top].(*ast.SelectorExpr)
+	if !ok || sel.X != top {
+		return false
+	}
+	s := p.info.Selections[sel]
+	if s == nil || s.Kind() != types.MethodVal {
+		return false
+	}
+	fn, ok := s.Obj().(*types.Func)
+	if !ok || fn.Pkg() == nil {
+		return false
+	}
+	pp := fn.Pkg().Path()
+	return pp == "sync" || pp == "sync/atomic" || strings.HasPrefix(pp, "verif/shim/")
+}
+
 func methodKey(fn *types.Func) string {
 	sig := fn.Type().(*types.Signature)
 	r := sig.Recv().Type()
@@ -506,13 +527,17 @@ func (p *pkgCtx) schedMode(mut map[string]bool) {
 				if !ok || p.info.Uses[id] != m.recv {
 					return true
 				}
+				if p.syncMethodUse(id) {
+					return true
+				}
 				if w, _ := p.classify(id, mut); w {
 					mut[m.key] = true
 					changed = true
 				}
-				// passing the receiver's fields by address to a body-less or any function counts as write
+				// passing the receiver's fields by address to a function counts as a write unless the callee provably
+				// only reads through that parameter (assembly callees are covered by the value scan at AsmExit)
 				top := p.chainTop(id)
-				if u, ok := p.parent[top].(*ast.UnaryExpr); ok && u.Op == token.AND {
+				if u, ok := p.parent[top].(*ast.UnaryExpr); ok && u.Op == token.AND && !p.addrArgReadOnly(u, map[*ast.FuncDecl]bool{}) {
 					mut[m.key] = true
 					changed = true
 				}
@@ -616,6 +641,9 @@ func (p *pkgCtx) schedMode(mut map[string]bool) {
 			fd := p.enclosingFunc(id)
 			if fd == nil || (fd.Name.Name == "init" && fd.Recv == nil) || initOnly[fd.Name.Name] {
 				return true // initialisation time: single-threaded by the language
+			}
+			if p.syncMethodUse(id) {
+				return true
 			}
 			w, why := p.classify(id, mut)
 			occs[obj] = append(occs[obj], occ{id, w, why})
@@ -734,6 +762,9 @@ func (p *pkgCtx) schedMode(mut map[string]bool) {
 				}
 				fd := p.enclosingFunc(id)
 				if fd == nil || (fd.Name.Name == "init" && fd.Recv == nil) || initOnly[fd.Name.Name] {
+					return true
+				}
+				if p.syncMethodUse(id) {
 					return true
 				}
 				w, why := p.classify(id, mut)
@@ -950,6 +981,115 @@ func (p *pkgCtx) text(n ast.Node) string {
 	f := p.fileOf(n)
 	e := p.edits[f]
 	return string(e.src[p.fset.Position(n.Pos()).Offset:p.fset.Position(n.End()).Offset])
+}
+
+// funcDeclOf returns the declaration of the package-level function called by call (nil when it is not a plain
+// function of this package).
+func (p *pkgCtx) funcDeclOf(call *ast.CallExpr) *ast.FuncDecl {
+	id, ok := call.Fun.(*ast.Ident)
+	if !ok {
+		return nil
+	}
+	fn, ok := p.info.Uses[id].(*types.Func)
+	if !ok || fn.Pkg() != p.pkg {
+		return nil
+	}
+	for _, f := range p.files {
+		for _, d := range f.Decls {
+			if fd, ok := d.(*ast.FuncDecl); ok && fd.Recv == nil && fd.Name.Name == id.Name {
+				return fd
+			}
+		}
+	}
+	return nil
+}
+
+// addrArgReadOnly: arg (a pointer-valued expression) is passed directly as a call argument to an assembly function
+// (whose stores are found by the value scan at AsmExit) or to a Go function of this package that only reads through
+// the corresponding parameter.
+func (p *pkgCtx) addrArgReadOnly(arg ast.Expr, busy map[*ast.FuncDecl]bool) bool {
+	call, ok := p.parent[arg].(*ast.CallExpr)
+	if !ok {
+		return false
+	}
+	idx := -1
+	for i, a := range call.Args {
+		if a == arg {
+			idx = i
+		}
+	}
+	fd := p.funcDeclOf(call)
+	if fd == nil || idx < 0 {
+		return false
+	}
+	if fd.Body == nil {
+		return true
+	}
+	if busy[fd] {
+		return false
+	}
+	busy[fd] = true
+	defer delete(busy, fd)
+	// the idx-th parameter object
+	var param types.Object
+	n := 0
+	for _, fl := range fd.Type.Params.List {
+		if len(fl.Names) == 0 {
+			n++
+			continue
+		}
+		for _, nm := range fl.Names {
+			if n == idx {
+				param = p.info.Defs[nm]
+			}
+			n++
+		}
+	}
+	if param == nil {
+		return false
+	}
+	if _, isPtr := param.Type().Underlying().(*types.Pointer); !isPtr {
+		return false // slices, variadics: not analysed
+	}
+	ro := true
+	ast.Inspect(fd.Body, func(nd ast.Node) bool {
+		id, ok := nd.(*ast.Ident)
+		if !ok || !ro || p.info.Uses[id] != param {
+			return ro
+		}
+		top := p.chainTop(id)
+		if top == ast.Expr(id) {
+			// the bare pointer: only a nil comparison or a read-only hand-on is accepted
+			switch par := p.parent[id].(type) {
+			case *ast.BinaryExpr:
+				if par.Op == token.EQL || par.Op == token.NEQ {
+					return true
+				}
+			case *ast.CallExpr:
+				if p.addrArgReadOnly(id, busy) {
+					return true
+				}
+			}
+			ro = false
+			return false
+		}
+		if w, _ := p.classify(id, map[string]bool{}); w {
+			ro = false
+			return false
+		}
+		switch par := p.parent[top].(type) {
+		case *ast.UnaryExpr:
+			if par.Op == token.AND && !p.addrArgReadOnly(par, busy) {
+				ro = false
+			}
+		case *ast.SliceExpr:
+			if par.X == top {
+				ro = false
+			}
+		}
+		return ro
+	})
+	return ro
 }
 
 func (p *pkgCtx) isAsmCall(call *ast.CallExpr) bool {
